@@ -242,6 +242,35 @@ func (r *Recorder) Violate(kind string, attrs map[string]string, detail string, 
 	r.viol = append(r.viol, v)
 }
 
+// loadRaceSummary folds the result of run.sh's race-detector pass (if any) into the verdict: a data race that
+// involves tibc-go module code is a violation, the others are listed.
+func (r *Recorder) loadRaceSummary() {
+	path := os.Getenv("VERIF_RACE_SUMMARY")
+	if path == "" {
+		return
+	}
+	bz, err := os.ReadFile(path)
+	if err != nil {
+		return
+	}
+	var sum struct {
+		Reports      int `json:"reports"`
+		TibcReports  int `json:"tibc_reports"`
+		DistinctTibc []struct {
+			Count  int      `json:"count"`
+			Frames []string `json:"frames"`
+		} `json:"distinct_tibc"`
+		Others []any `json:"others"`
+	}
+	if json.Unmarshal(bz, &sum) != nil {
+		return
+	}
+	r.Extra("race_detector_pass", map[string]any{"reports": sum.Reports, "reports_involving_tibc_go": sum.TibcReports, "other_reports_sample": sum.Others})
+	for _, d := range sum.DistinctTibc {
+		r.Violate("data-race", map[string]string{"frames": strings.Join(d.Frames, " | ")}, fmt.Sprintf("%d race reports", d.Count), d.Frames)
+	}
+}
+
 // Unlisted returns the number of violations not covered by known findings.
 func (r *Recorder) Unlisted() int {
 	r.mu.Lock()
@@ -258,6 +287,7 @@ func (r *Recorder) Unlisted() int {
 // Finish writes the evidence file and returns the process exit code:
 // 0 held on what was observed, 1 violation, 3 inconclusive.
 func (r *Recorder) Finish() int {
+	r.loadRaceSummary()
 	r.mu.Lock()
 	defer r.mu.Unlock()
 	for n := range r.required {
